@@ -8,7 +8,7 @@ from ..cfg import NORMAL, Node, handler_classes
 from ..core import Ctx
 from ..flow import ALL, find_path, names_in
 from ..model import AnalysisError, FunctionInfo, dotted, norm_text
-from .common import effective_compare, facts_at, edge_target, handler_exits, handler_nodes, in_handler, kwarg, reachable_from
+from .common import call_keywords, effective_compare, facts_at, owner_tops, edge_target, handler_exits, handler_nodes, in_handler, kwarg, reachable_from
 
 EXPLANATION = (
     "Static analysis of file_lock.py / lock_provider.py: (R1) every exclusive flock / msvcrt.locking attempt carries the "
@@ -219,10 +219,12 @@ def r3(ctx: Ctx, rid: str) -> None:
     cls = ctx.prog.cls("lock_provider.S3LockProvider")
     n_put = 0
     for m in cls.methods.values():
+        if ctx.prog.is_transparent(m) and owner_tops(ctx, m):
+            continue  # a helper introduced later: its PUT is judged at each place it is analysed in place
         for p in ctx.calls(m, prim="boto.put_object"):
             n_put += 1
-            kws = {k.arg for k in p.ast.keywords} if isinstance(p.ast, ast.Call) else set()
-            ctx.ob(rid, m, "conditional PUT", p, bool(kws & {"IfNoneMatch", "IfMatch"}),
+            kws = set(call_keywords(ctx, m, p))
+            ctx.ob(rid, m, "conditional PUT", p, bool(kws & {"IfNoneMatch", "IfMatch"}) and "**?" not in kws,
                    f"keywords {sorted(k for k in kws if k)}: create / takeover / renewal of the lock object are CAS (audit #30)",
                    nontrivial=False)
     if n_put < 3:
@@ -232,7 +234,8 @@ def r3(ctx: Ctx, rid: str) -> None:
     g = ctx.cfg(tk)
     sl = ctx.slicer(tk)
     for p in ctx.calls(tk, prim="boto.put_object"):
-        im = kwarg(p.ast, "IfMatch")
+        ims = call_keywords(ctx, tk, p).get("IfMatch", [])
+        im = ims[0] if ims else None
         eo = sl.origins(im, p.id)
         heads = [c for c in eo["calls"] if isinstance(c, ast.Call) and (dotted(c.func) or "").endswith("head_object")]
         age_b = [b for b in g.nodes if b.kind == "branch" and isinstance(b.ast, ast.Compare) and "lease_seconds" in b.text]
@@ -292,8 +295,8 @@ def r3(ctx: Ctx, rid: str) -> None:
                        "the object may be a successor's")
     rn = ctx.fn("lock_provider.S3LockProvider._renew_once")
     for p in ctx.calls(rn, prim="boto.put_object"):
-        im = kwarg(p.ast, "IfMatch")
-        o = ctx.slicer(rn).origins(im, p.id)
+        ims = call_keywords(ctx, rn, p).get("IfMatch", [])
+        o = ctx.slicer(rn).origins(ims[0], p.id) if ims else {"names": set()}
         ctx.ob(rid, rn, "renewal is keyed to our last-known ETag", p, "self._etag" in o["names"],
                "a renewal after theft fails instead of resurrecting the lock")
 
